@@ -441,6 +441,13 @@ static void run_barrier(void)
 		do_call_rcu(3, cb);		/* on the per-thread helper */
 		set_thread_call_rcu_data(NULL);
 	}
+	if (vrt_param("per_cpu", 0)) {
+		/* per-CPU helpers: the barrier has to cover the default helper and every per-CPU one */
+		VRT_CHECK(create_all_cpu_call_rcu_data(0) == 0, "create_all_cpu_call_rcu_data failed");
+		vrt_set_cpu(1);
+		do_call_rcu(4, cb);		/* on CPU 1's helper */
+		vrt_set_cpu(0);
+	}
 	if (with_reader) {
 		pthread_create(&r, NULL, reader, (void *)1L);
 		BLOCKING(vrt_await(ready_pred, (void *)1L));
@@ -462,6 +469,8 @@ static void run_barrier(void)
 		BLOCKING(pthread_join(r, NULL));
 	if (crdp)
 		BLOCKING(call_rcu_data_free(crdp));
+	if (vrt_param("per_cpu", 0))
+		BLOCKING(free_all_cpu_call_rcu_data());
 	main_leave();
 }
 
